@@ -15,6 +15,27 @@ Theorem C16_match : forall n hn M m p HM Hm Hp,
 Proof. exact match_rule. Qed.
 Print Assumptions C16_match.
 
+(* The same rule on the whole numeric domain: ANY three-segment identifier (the first segment is ignored by the
+   code: "junk/preconf/1.0.0" is judged like "/preconf/1.0.0") whose version and whose handler's version are read
+   as numbers - leading zeros included, "01.002.3" is 1.2.3 - is matched exactly when the name is equal, the major
+   is equal and the minor is not greater. *)
+Theorem C16_match_general : forall incoming pre n v name supported SM Sm Sp PM Pm Pp,
+  split slash incoming = [pre; n; v] ->
+  parse_version supported = VNum SM Sm Sp -> parse_version v = VNum PM Pm Pp ->
+  match_id incoming name supported =
+    if bytes_eqb n name && (SM =? PM) && (Pm <=? Sm) then Match else NoMatch.
+Proof. exact match_general. Qed.
+Print Assumptions C16_match_general.
+
+(* ... where "read as numbers M.m.p" means exactly: three non-empty runs of decimal digits separated by two dots,
+   each with a value below 2^64 ([numeric a M]: a is non-empty, all digits, of decimal value M). *)
+Theorem C16_numeric_domain : forall v M m p,
+  parse_version v = VNum M m p <->
+  exists a b c, v = a ++ dot :: b ++ dot :: c /\ numeric a M /\ numeric b m /\ numeric c p /\
+                M < two64 /\ m < two64 /\ p < two64.
+Proof. exact parse_version_num. Qed.
+Print Assumptions C16_numeric_domain.
+
 (* Components that do not fit 64 bits are a parse error: no match. *)
 Theorem C16_overflow : forall n hn M m p HM Hm Hp,
   ~ In slash n ->
@@ -55,7 +76,48 @@ Theorem C16_route_unique : forall (descs : list (bytes * bytes)) incoming d1 d2,
 Proof. exact route_unique. Qed.
 Print Assumptions C16_route_unique.
 
-(* "No identifier crashes the node": [match_id] is a total function into a type without a
-   crash outcome because the Go function indexes only parts[1], parts[2] after checking
-   len(parts) = 3; the absence of panics in the implementation (incl. the version library)
-   is observed by the correspondence check, clause "panic". *)
+
+(* Routing.  [route ds incoming] is the model of AddStreamHandlers over go-multistream: every descriptor of [ds] is
+   registered in order (number k from 1) with SetStreamHandlerMatch - which first removes the entry registered
+   under the same name and appends the new one - and an incoming identifier goes to the first entry of the
+   resulting table whose match function (matchProtocolIDWithSemver with the entry's own name and version) accepts.
+   With pairwise distinct names, as the node's own protocols have: the identifier reaches the k-th registered
+   handler exactly when that handler's descriptor matches, ... *)
+Theorem C16_route : forall ds incoming k d,
+  NoDup (map fst ds) ->
+  (route ds incoming = Some (k, d) <->
+   1 <= k /\ nth_error ds (N.to_nat (k - 1)) = Some d /\ match_id incoming (fst d) (snd d) = Match).
+Proof. exact route_spec_nodup. Qed.
+Print Assumptions C16_route.
+
+(* ... and reaches no handler exactly when no registered descriptor matches. *)
+Theorem C16_route_none : forall ds incoming,
+  NoDup (map fst ds) ->
+  (route ds incoming = None <-> forall d, In d ds -> match_id incoming (fst d) (snd d) <> Match).
+Proof. exact route_none_nodup. Qed.
+Print Assumptions C16_route_none.
+
+(* Without the distinct-names premise: the handler reached is the LAST registration of its name whose descriptor
+   matches (registering a name again replaces the earlier handler, whatever its version was). *)
+Theorem C16_route_general : forall ds incoming h,
+  route ds incoming = Some h <->
+  last_of_name (number 1 ds) h /\ match_id incoming (fst (snd h)) (snd (snd h)) = Match.
+Proof. exact route_spec. Qed.
+Print Assumptions C16_route_general.
+
+(* "No identifier crashes the node", for the repository's own code: [match_id_gen nv] is matchProtocolIDWithSemver
+   with its two indexing statements parts[1], parts[2] as explicit crash points ([index_o]) and the version library
+   as the named oracle [nv].  If the library call does not crash, no identifier and no handler descriptor makes
+   the function crash.  (That semver.NewVersion itself does not panic on arbitrary bytes is outside the proof; the
+   correspondence check observes it on every malformed identifier, clause "panic".)  The crash outcome is not
+   vacuous: the same body without the length test crashes on the empty identifier, [unguarded_crashes]. *)
+Theorem C16_no_crash : forall nv incoming name supported,
+  (forall s, nv s <> Panic) -> match_id_gen nv incoming name supported <> Panic.
+Proof. exact no_crash. Qed.
+Print Assumptions C16_no_crash.
+
+(* With the library as modelled, the crash-aware function is the total function the theorems above speak about. *)
+Theorem C16_no_crash_model : forall incoming name supported,
+  match_id_o incoming name supported = Ok (match_id incoming name supported).
+Proof. exact match_id_o_total. Qed.
+Print Assumptions C16_no_crash_model.
